@@ -90,6 +90,10 @@ mod wasm32_simd128;
 mod x86_avx2;
 mod x86_sse2;
 mod x86_ssse3;
+#[cfg(fast_tlsh_verif)]
+#[allow(missing_docs)]
+#[allow(clippy::missing_docs_in_private_items)]
+pub(crate) mod verif_hooks;
 
 #[cfg(all(test, feature = "tests-slow"))]
 mod fuzzer;
